@@ -3,10 +3,10 @@
    in the order in which the code appends the converted rows) are regenerated from
    /repo on every run; Model.resolve_degeneracy is the hand model of the control
    flow, compared exactly with the implementation's blocks on every run. *)
-From Coq Require Import ZArith List Bool Permutation Sorting.Sorted.
+From Coq Require Import ZArith Reals List Bool Permutation Sorting.Sorted.
 Import ListNotations.
 From FV.C11 Require Import Model.
-From FV.C18 Require Import Model ProofsIndex DegenSpec DegenProofs.
+From FV.C18 Require Import Model ProofsIndex DegenSpec DegenProofs DegenMesh.
 From FV.C18.gen Require Import Tables.
 Set Default Timeout 240.
 
@@ -51,3 +51,22 @@ Proof.
   - exact (resolve_never_malformed _ hexes prisms translated_patterns_wf W).
   - exact (resolve_unknown_pattern _ hexes prisms).
 Qed.
+(* (e) the whole operation, all node coordinates (pt), 8-node hex rows and prism rows in any
+   storage order with any ids: the hex block keeps exactly the hexes without a collapsed
+   edge, untouched; every old prism row is still there; every other row of the prism block
+   is the prism of a degenerate hex of the source: same id, same node set, six nodes, same
+   centroid-mode volume (translated hex / prism kernels); every degenerate hex got one.
+   Non-vacuity: DegenProofs.degeneracy_bookkeeping_example. *)
+Theorem C18_degeneracy_mesh : forall (pt : Z -> v3 R) hexes prisms kept prisms',
+  wf_hex_rows hexes = true ->
+  resolve_degeneracy degeneracy_patterns hexes prisms = Ok (kept, prisms') ->
+  kept = filter (fun r => nondegenerate degeneracy_patterns (snd r)) hexes /\
+  (forall r, In r prisms -> In r prisms') /\
+  (forall i c', In (i, c') prisms' ->
+     In (i, c') prisms \/
+     exists c, In (i, c) hexes /\ nondegenerate degeneracy_patterns c = false /\
+               (forall x, In x c' <-> In x c) /\ List.length c' = 6%nat /\
+               exists v, hex_row_volume pt c = Some v /\ prism_row_volume pt c' = Some v) /\
+  (forall i c, In (i, c) hexes -> nondegenerate degeneracy_patterns c = false ->
+     exists c', In (i, c') prisms').
+Proof. exact resolve_degeneracy_mesh. Qed.
